@@ -128,7 +128,8 @@ impl Prop for C05Prop {
                 l.segs = gen::gen_segs(rng, tier, &mix);
                 let len = build_stream(&l.segs).stream.len();
                 let nops = rng.below(5);
-                l.ops = gen::gen_push_ops(rng, len, nops);
+                let marks = gen::marks_of(&l.segs);
+                l.ops = gen::gen_push_ops_biased(rng, len, nops, &marks);
                 let np = rng.range(1, 3);
                 for _ in 0..np {
                     let at = if rng.chance(1, 2) { len } else { rng.below(len + 1) };
